@@ -24,3 +24,11 @@ def between_times(start, end, units):
     p = Period.between(start, end, units)
     landing = start + p
     return (p.hours, p.minutes, p.seconds, p.milliseconds, p.ticks, p.nanoseconds, p.has_date_component, landing.nanosecond_of_day)
+
+
+def between_year_months(start, end, units):
+    from pyoda_time import Period
+
+    p = Period.between(start, end, units)
+    back = start.on_day_of_month(1) + p
+    return (p.years, p.months, p.weeks, p.days, p.has_time_component, back._days_since_epoch)
